@@ -116,8 +116,10 @@ def one(args):
             res['status'] = 'reported'
             res['rules'] = sorted({i.rule for i in v})
             res['props'] = sorted(set().union(*[i.props for i in v]))
-            return res
-        res['status'] = 'silent'
+            res['keys'] = [i.key for i in v][:4]
+            if run_tests != 'all':
+                return res
+        res.setdefault('status', 'silent')
         if run_tests:
             env = dict(os.environ)
             env['CARGO_NET_OFFLINE'] = 'true'
@@ -141,6 +143,7 @@ def main():
     ap.add_argument('--tests', action='store_true')
     ap.add_argument('--out', default='/verif/sweep/MUTANTS.json')
     ap.add_argument('--workers', type=int, default=14)
+    ap.add_argument('--tests-on-reported', action='store_true', help='also run the test-suite on mutants some rule reports (to find reports on equivalent mutants)')
     ap.add_argument('--rerun-silent', action='store_true', help='re-run the checker only on the mutants recorded as silent in --out')
     a = ap.parse_args()
     files = [f for f in a.files.split(',') if f] or source_files()
@@ -157,7 +160,7 @@ def main():
     print('%d mutants over %d files' % (len(ms), len(files)), flush=True)
     results = []
     with ProcessPoolExecutor(max_workers=a.workers) as ex:
-        for n, r in enumerate(ex.map(one, [(m, a.tests) for m in ms], chunksize=2)):
+        for n, r in enumerate(ex.map(one, [(m, 'all' if a.tests_on_reported else a.tests) for m in ms], chunksize=2)):
             results.append(r)
             if (n + 1) % 100 == 0:
                 print('  %d done' % (n + 1), flush=True)
